@@ -31,7 +31,9 @@ RULE = ("histories of 1-14 operations of the Discovery API (register/unregister 
         "nodes, then interleaves operations and per-channel-FIFO deliveries under 6 policies, 80% drained "
         "to quiescence, 20% cut after 5-80 actions (in-flight messages compared); 1 case in 16 is the re-hosting "
         "race (subscriber registers the computation on itself while the old host's named un-publication is "
-        "forwarded to it: forced schedule prefix, random tail). non-trivial = at least "
+        "forwarded to it: forced schedule prefix, random tail), 1 in 16 an agent leaving while a subscriber holds "
+        "several callbacks for it, pending one-shot ones first, 1 in 16 a computation with replicas un-registered and "
+        "registered again while an observer is subscribed to its replicas only. non-trivial = at least "
         "one callback fired and at least one (subscriber, item) pair the directory had to keep informed; "
         "distinct = distinct case JSON")
 MODELLED = ("Directory, DirectoryComputation, Discovery, DiscoveryComputation are modelled in full (every "
@@ -239,11 +241,72 @@ def _gen_rehost(rng):
                 policy=rng.choice(["uniform", "drain", "newest"]), sched=sched)
 
 
+def _gen_agent_leaves(rng):
+    """an agent leaves while a subscriber holds SEVERAL callbacks for it, some of them one-shot and still pending
+    (they were installed when the agent was already known, so the directory's answer changed nothing): every one
+    of them must be told agent_removed (fix 413036a: the one-shot ones were removed from the list being iterated)"""
+    na = rng.choice([2, 3])
+    x = rng.choice([1, 1, na + 1])                # the agent that leaves: agent 1 itself or a name-only agent
+    agents, comps, cbs = list(range(1, na + 1)) + [na + 1], [0, 1], [1, 2, 3]
+    hist = {str(a): [] for a in range(1, na + 1)}
+    hist["1"] = [["reg_agent", x, addr_of(x)]]
+    ncb = rng.randint(2, 3)
+    shots = [rng.random() < 0.6 for _i in range(ncb)]
+    if not any(shots[:-1]):
+        shots[rng.randrange(ncb - 1)] = True      # a one-shot one that is not the last
+    hist["2"] = [["sub_agent", x, None, False]] + [["sub_agent", x, cbs[i], shots[i]] for i in range(ncb)]
+    if rng.random() < 0.3:
+        hist["2"].append(["sub_all", rng.choice([None, 3])])
+    hist["1"].append(["unreg_agent", x])
+    if rng.random() < 0.5:
+        hist["1"].append(["reg_agent", x, addr_of(x)])
+    for _i in range(rng.randint(0, 3)):
+        a = rng.randint(1, na)
+        hist[str(a)].append(_gen_op(rng, a, na, "natural", agents, comps, cbs))
+    sched = [["D", -1, 1], ["D", 1, 0], ["D", -2, 2], ["D", 2, 0], ["D", 0, 2]]
+    for _i in range(ncb):
+        sched += [["D", -2, 2], ["D", 2, 0], ["D", 0, 2]]
+    sched += [["D", -1, 1], ["D", 1, 0], ["D", 0, 2]]
+    return dict(n=na, hist=hist, seed=rng.randrange(10 ** 9), drain=rng.random() < 0.85, steps=rng.randint(5, 40),
+                policy=rng.choice(["uniform", "drain", "newest"]), sched=sched)
+
+
+def _gen_replica_rehost(rng):
+    """a computation with replicas is un-registered and registered again while an observer is subscribed to its
+    REPLICAS only (it un-subscribed from the computation): nobody un-registered a replica, so the directory and the
+    observer must still agree on the replica set afterwards"""
+    na = rng.choice([2, 3])
+    agents, comps, cbs = list(range(1, na + 1)), [0, 1], [1, 2]
+    holders = rng.sample([1, 2, na + 1], rng.randint(1, 2))
+    hist = {str(a): [] for a in agents}
+    hist["1"] = [["reg_agent", 1, addr_of(1)], ["reg_comp", 0, 1, addr_of(1)]] + [["reg_rep", 0, g] for g in holders]
+    hist["2"] = [["sub_comp", 0, rng.choice([None, 1]), False], ["sub_rep", 0, rng.choice([None, 2]), False],
+                 ["unsub_comp", 0, None]]
+    hist["1"] += [["unreg_comp", 0, rng.choice([None, 1])], ["reg_comp", 0, 1, addr_of(1)]]
+    if rng.random() < 0.4:
+        hist["1"].append(["unreg_rep", 0, holders[0]])
+    for _i in range(rng.randint(0, 3)):
+        a = rng.randint(1, na)
+        hist[str(a)].append(_gen_op(rng, a, na, "natural", agents, comps, cbs))
+    sched = [["D", -1, 1], ["D", 1, 0]] * (2 + len(holders))
+    sched += [["D", -2, 2], ["D", 2, 0], ["D", 0, 2]] + [["D", -2, 2], ["D", 2, 0], ["D", 0, 2], ["D", 0, 2]] + \
+             [["D", -2, 2], ["D", 2, 0]]
+    sched += [["D", -1, 1], ["D", 1, 0], ["D", 1, 0], ["D", -1, 1], ["D", 1, 0]]
+    return dict(n=na, hist=hist, seed=rng.randrange(10 ** 9), drain=rng.random() < 0.85, steps=rng.randint(5, 40),
+                policy=rng.choice(["uniform", "drain", "newest"]), sched=sched)
+
+
 def gen(rng, n, tier):
     cases = []
     for _k in range(n):
+        if _k % 16 == 3:
+            cases.append(_gen_replica_rehost(rng))
+            continue
         if _k % 16 == 7:
             cases.append(_gen_rehost(rng))
+            continue
+        if _k % 16 == 11:
+            cases.append(_gen_agent_leaves(rng))
             continue
         na = rng.choice([1, 2, 2, 3, 3])
         style = rng.choice(["natural", "natural", "any", "mixed"])
